@@ -504,9 +504,11 @@ class C11(Prop):
 class C12(Prop):
     def workload(self, tier, rnd):
         scripts = []
-        n = 120 if tier == 'quick' else 3000
+        n = 120 if tier == 'quick' else 1200
         for i in range(n):
-            dim = rnd.randint(1, 3); npts = rnd.randint(2, 6 if tier == 'quick' else 7)
+            # (thorough: 7 points only now and then -- the full simplex on 7 points has 127 simplices
+            # and each of the up to 20 radii of a script builds its flag complex from scratch)
+            dim = rnd.randint(1, 3); npts = rnd.randint(2, 6 if (tier == 'quick' or i % 10) else 7)
             kind = i % 4
             if kind == 0:      # integer grid: exact distances, ties
                 pts = [[float(rnd.randint(0, 4)) for _ in range(dim)] for _ in range(npts)]
